@@ -42,6 +42,12 @@ func shapeText(l string) string {
 		return rep("a", 71)
 	case "len140":
 		return rep("a", 140)
+	case "len255":
+		return rep("a", 255)
+	case "len256":
+		return rep("a", 256)
+	case "len257":
+		return rep("a", 257)
 	case "len10000", "long10000":
 		return rep("a", 10000)
 	case "len4999":
